@@ -14,7 +14,6 @@
 //   Decoder::read_any        abstract trait contract = the contract PROVED for `Any::decode` (never rewinds, stays inside the
 //                            input, consumes >= 1 byte on success); the real bodies of DecoderV1 / DecoderV2 are verified against it
 //   IdMapInner::insert_range external_body STUB of unit ids_lift, label inner_insert_range (contract text cross-checked)
-//   vx_sort_entries_by_start TRUSTED std stand-in for `entries.sort_by_key(|(range, _)| range.start)` (A10)
 //
 // CONTRACT of IdMap::decode
 //   (a) TOTAL: no index out of bounds at `visited_attributions[attr_id]` / `visited_attr_names[attr_name_id]` (a dangling id
@@ -28,7 +27,17 @@
 //       No capacity is requested up front (all five collections start empty and grow by `push`).
 //   (c) RESULT: `wf_map` -- every per-client entry canonical and non-empty (through the proved contract of insert_range:
 //       F-DC-13, repaired: ranges were stored as received), at most (consumed bytes) / 2 clients.
-//   NOT CLAIMED (see FINDING F-DC-14 in unit.rs): the size of the stored VALUE is not proportional to the input.
+//   (d) STRICT (F-DC-14, repaired: normalising arbitrary ranges was cubic): three lifted regions of the same source text (R18),
+//       each a function of its own so that its clauses are CONTRACT clauses:
+//         idmap_check_client   (`let diff` + check) Err(UnexpectedValue) iff the delta reads as 0 after the first section
+//         idmap_check_range    (`let range_end` + check) Ok iff non-empty, inside the clock space and not before the end of its
+//                              predecessor; Err(UnexpectedValue) for an empty / unordered / overlapping range
+//         idmap_store_section  for a strict list (`ranges_ok`: non-empty, ascending, disjoint) of a client that is not in the map yet
+//                              the stored entry is EXACTLY the wire list coalesced: the same clocks, and every clock keeps the
+//                              attributes it has on the wire (`eq_spec`; nothing is merged because nothing overlaps); no entry
+//                              for an empty list.  Canonical forms are unique (unit ids_subset), so this determines the entry.
+//       `IdMap::decode` itself proves that both preconditions hold where the real loop runs (invariants: `ranges_ok(entries@)`,
+//       every stored client <= last_client_id).
 // ---------------------------------------------------------------------------------------------
 
 /// R13: opaque stand-in for `ContentAttribute<A>` (`Arc<ContentAttributeInner<A>>`)
@@ -91,24 +100,6 @@ pub fn from_any<A: DeserializeOwned>(any: &Any) -> Result<A, Error> {
     A::vx_from_any(any)
 }
 
-pub mod vx_std_sort2 {
-    use vstd::prelude::*;
-    use core::ops::Range;
-
-    /// A10 (TRUSTED std stand-in): `entries.sort_by_key(|(range, _)| range.start)` (the body is that statement).
-    /// slice::sort_by_key: "Sorts the slice in ascending order with a key extraction function, preserving initial order of equal
-    /// elements": the result is a permutation of the input (same multiset) ordered by the key.
-    #[verifier::external_body]
-    pub fn vx_sort_entries_by_start<T>(v: &mut Vec<(Range<u32>, T)>)
-        ensures
-            final(v)@.to_multiset() == old(v)@.to_multiset(),
-            forall|i: int, j: int| 0 <= i < j < final(v)@.len() ==> (#[trigger] final(v)@[i]).0.start <= (#[trigger] final(v)@[j]).0.start,
-    {
-        v.sort_by_key(|(range, _)| range.start);
-    }
-}
-use vx_std_sort2::*;
-
 /// the attribute value at a member point (text of unit ids_lift)
 pub open spec fn val<T>(m: Map<ClientID, Seq<Ent<T>>>, client: ClientID, clock: int) -> T {
     val_at(m[client], clock)
@@ -159,26 +150,6 @@ impl<A: PartialEq + Eq + std::hash::Hash + Clone, CA: Merge> IdMap<A, CA> {
 /// all attached values are well-formed
 pub open spec fn ents_wf<T: Merge>(s: Seq<Ent<T>>) -> bool {
     forall|j: int| 0 <= j < s.len() ==> (#[trigger] s[j]).1.wf()
-}
-
-/// a permutation of a list of well-formed entries consists of well-formed entries
-pub proof fn lemma_perm_ents_wf<T: Merge>(a: Seq<Ent<T>>, b: Seq<Ent<T>>)
-    requires
-        a.to_multiset() == b.to_multiset(),
-        ents_wf(b),
-    ensures
-        ents_wf(a),
-        a.len() == b.len(),
-{
-    a.to_multiset_ensures();
-    b.to_multiset_ensures();
-    assert forall|j: int| 0 <= j < a.len() implies (#[trigger] a[j]).1.wf() by {
-        assert(a.contains(a[j]));
-        assert(b.to_multiset().count(a[j]) > 0);
-        assert(b.contains(a[j]));
-        let k = choose|k: int| 0 <= k < b.len() && b[k] == a[j];
-        assert(b[k].1.wf());
-    }
 }
 
 /// `same_except` composes (the inserting loop touches one client only)
@@ -263,6 +234,8 @@ impl<A: DeserializeOwned + PartialEq + Eq + std::hash::Hash + Clone, CA: AttrsOf
             wf_map(id_map@),
             id_map@.dom().finite(),
             id_map@.len() <= it1.index@,
+            // STRICT (F-DC-14, repaired): the clients arrive in strictly ascending order
+            forall|c: ClientID| #[trigger] id_map@.contains_key(c) ==> c.0 <= last_client_id && it1.index@ > 0,
     @loopstart 1
         let ghost sa = decoder.rest();
         let ghost m0 = id_map@;
@@ -274,6 +247,7 @@ impl<A: DeserializeOwned + PartialEq + Eq + std::hash::Hash + Clone, CA: AttrsOf
             lemma_glob_read(s0, sa, sb, visited_attributions@.len(), visited_attr_names@.len());
         }
     @after 1 `stmt:let num_ranges`
+        let ghost cu = client;
         let ghost sc = decoder.rest();
         proof {
             lemma_read_progress::<u32>(sb, sc, Ok::<u32, Error>(num_ranges));
@@ -288,6 +262,8 @@ impl<A: DeserializeOwned + PartialEq + Eq + std::hash::Hash + Clone, CA: AttrsOf
             decoder.rest().len() <= sc.len(),
             3 * entries@.len() <= sc.len() - decoder.rest().len(),
             ents_wf(entries@),
+            // STRICT (F-DC-14, repaired): the ranges of a client arrive non-empty, ascending, without overlaps
+            ranges_ok(entries@),
             id_map@ == m0,
     @loopstart 2
         let ghost sd = decoder.rest();
@@ -340,10 +316,11 @@ impl<A: DeserializeOwned + PartialEq + Eq + std::hash::Hash + Clone, CA: AttrsOf
             lemma_suffix_len(sj, decoder.rest());
             lemma_suffix_trans(s0, sj);
         }
-    @afterloop 2
-        let ghost es0 = entries@;
     @before 4 `stmt:for`
-        proof { lemma_perm_ents_wf(entries@, es0); }
+        proof {
+            // the preconditions of the lifted section store `idmap_store_section` hold at the real site (strict input)
+            assert(ranges_ok(entries@) && ents_wf(entries@) && !id_map@.contains_key(client));
+        }
     @loop 4 iter=it4
         invariant
             s0 == old(decoder).rest(),
@@ -359,7 +336,14 @@ impl<A: DeserializeOwned + PartialEq + Eq + std::hash::Hash + Clone, CA: AttrsOf
     @loopend 4
         proof { lemma_same_except_trans(id_map@, m1, m0, client); }
     @afterloop 4
-        proof { lemma_same_except_len(id_map@, m0, client); }
+        proof {
+            lemma_same_except_len(id_map@, m0, client);
+            assert forall|c: ClientID| #[trigger] id_map@.contains_key(c) implies c.0 <= last_client_id by {
+                if c != client {
+                    assert(id_map@.contains_key(c) == m0.contains_key(c));
+                }
+            }
+        }
     @before 5 `stmt:for`
         let ghost mf = id_map@;
     @loop 5 iter=it5
@@ -373,3 +357,190 @@ impl<A: DeserializeOwned + PartialEq + Eq + std::hash::Hash + Clone, CA: AttrsOf
             wf_map(mf),
     @*/
 }
+
+// ---------------------------------------------------------------------------------------------
+// STRICTNESS: three statement regions of `IdMap::decode`, lifted (R18; the same source text as above)
+// ---------------------------------------------------------------------------------------------
+// (both check regions START at a statement that is there with or without the check -- `let diff` / `let range_end` -- so that a
+// dropped check leaves a region that still assembles and FAILS its contract instead of losing its anchor)
+/*@extract yrs/src/id_map.rs | impl<A: DeserializeOwned + PartialEq + Eq + Hash + Clone> Decode for IdMap<A> | region decode | stmt=stmt:let diff | until=stmt:let client | tail=Ok(diff) | label=idmap_check_client
+@header
+    fn idmap_check_client<D: Decoder>(decoder: &mut D, i: u32) -> (r: Result<u64, Error>)
+@sig
+    requires
+        old(decoder).wf(),
+    ensures
+        final(decoder).wf(),
+        match dec_u64(old(decoder).rest()) {
+            // a repeated client (delta 0 after the first section) is rejected as Error::UnexpectedValue ...
+            Some((d, k)) => if i > 0 && d == 0 { r is Err && r->Err_0 is UnexpectedValue } else { r == Ok::<u64, Error>(d) },
+            None => r is Err,
+        },
+        // ... so the clients of an accepted id map are strictly ascending
+        r is Ok ==> i == 0 || r->Ok_0 > 0,
+@*/
+
+/*@extract yrs/src/id_map.rs | impl<A: DeserializeOwned + PartialEq + Eq + Hash + Clone> Decode for IdMap<A> | region decode | stmt=stmt:let range_end | until=stmt:call push ~ range_end | tail=Ok(range_end) | label=idmap_check_range
+@header
+    fn idmap_check_range<CA: Merge>(entries: &Vec<(Range<u32>, CA)>, range_clock: u32, range_len: u32) -> (r: Result<u32, Error>)
+@sig
+    ensures
+        // accepted: exactly the non-empty ranges that fit the clock space and start at or after the end of their predecessor
+        r is Ok <==> range_len != 0 && range_clock + range_len <= u32::MAX && (entries@.len() == 0 || entries@.last().0.end <= range_clock),
+        r is Ok ==> r->Ok_0 == range_clock + range_len,
+        // an empty range, and a range that starts before the end of its predecessor (unordered or overlapping), are rejected as
+        // Error::UnexpectedValue (an overflowing one as InvalidVarInt)
+        range_clock + range_len <= u32::MAX && r is Err ==> r->Err_0 is UnexpectedValue,
+        range_clock + range_len > u32::MAX ==> r is Err && r->Err_0 is InvalidVarInt,
+@*/
+
+/// clock `k` lies in one of the first `n` entries
+pub open spec fn ent_upto<T>(s: Seq<Ent<T>>, n: int, k: int) -> bool {
+    exists|j: int| 0 <= j < n && j < s.len() && inr((#[trigger] s[j]).0, k)
+}
+
+/// the value at a covered clock of a canonical list is well-formed
+pub proof fn lemma_val_wf<T: Merge>(s: Seq<Ent<T>>, k: int)
+    requires
+        canon(s),
+        covers(s, k),
+    ensures
+        val_at(s, k).wf(),
+{
+    let i = idx_of(s, k);
+    assert(0 <= i < s.len() && inr(s[i].0, k));
+    assert(s[i].1.wf());
+}
+
+/// one iteration of the section store (the contract of `insert_range` is the hypotheses about m1 / m2)
+pub proof fn lemma_store_step<T: Merge>(m0: Map<ClientID, Seq<Ent<T>>>, m1: Map<ClientID, Seq<Ent<T>>>, m2: Map<ClientID, Seq<Ent<T>>>, client: ClientID, es: Seq<Ent<T>>, n: int)
+    requires
+        ranges_ok(es),
+        ents_wf(es),
+        0 <= n < es.len(),
+        wf_map(m1),
+        wf_map(m2),
+        same_except(m1, m0, client),
+        same_except(m2, m1, client),
+        forall|k: int| #![trigger has_pt(m1, client, k)] has_pt(m1, client, k) <==> ent_upto(es, n, k),
+        forall|k: int| has_pt(m1, client, k) ==> #[trigger] val(m1, client, k).eq_spec(&val_at(es, k)),
+        forall|c: ClientID, k: int| #![trigger has_pt(m2, c, k)] #![trigger has_pt(m1, c, k)] has_pt(m2, c, k) <==> has_pt(m1, c, k) || (c == client && inr(es[n].0, k)),
+        forall|k: int| has_pt(m1, client, k) && !inr(es[n].0, k) ==> #[trigger] val(m2, client, k).eq_spec(&val(m1, client, k)),
+        forall|k: int| !has_pt(m1, client, k) && inr(es[n].0, k) ==> #[trigger] val(m2, client, k).eq_spec(&es[n].1),
+    ensures
+        same_except(m2, m0, client),
+        forall|k: int| #![trigger has_pt(m2, client, k)] has_pt(m2, client, k) <==> ent_upto(es, n + 1, k),
+        forall|k: int| has_pt(m2, client, k) ==> #[trigger] val(m2, client, k).eq_spec(&val_at(es, k)),
+{
+    lemma_same_except_trans(m2, m1, m0, client);
+    assert forall|k: int| #![trigger has_pt(m2, client, k)] has_pt(m2, client, k) <==> ent_upto(es, n + 1, k) by {
+        assert(has_pt(m2, client, k) <==> has_pt(m1, client, k) || inr(es[n].0, k));
+        assert(has_pt(m1, client, k) <==> ent_upto(es, n, k));
+        if ent_upto(es, n, k) {
+            let j = choose|j: int| 0 <= j < n && j < es.len() && inr((#[trigger] es[j]).0, k);
+            assert(0 <= j < n + 1 && j < es.len() && inr(es[j].0, k));
+        }
+        if inr(es[n].0, k) {
+            assert(0 <= n < n + 1 && n < es.len() && inr(es[n].0, k));
+        }
+        if ent_upto(es, n + 1, k) {
+            let j = choose|j: int| 0 <= j < n + 1 && j < es.len() && inr((#[trigger] es[j]).0, k);
+            if j < n {
+                assert(0 <= j < n && j < es.len() && inr(es[j].0, k));
+            }
+        }
+    }
+    assert forall|k: int| has_pt(m2, client, k) implies #[trigger] val(m2, client, k).eq_spec(&val_at(es, k)) by {
+        assert(has_pt(m2, client, k) <==> has_pt(m1, client, k) || inr(es[n].0, k));
+        if inr(es[n].0, k) {
+            // the new range: disjoint from everything stored so far (strict input), so its attributes are stored as they are
+            if has_pt(m1, client, k) {
+                assert(ent_upto(es, n, k));
+                let j = choose|j: int| 0 <= j < n && j < es.len() && inr((#[trigger] es[j]).0, k);
+                assert(es[j].0.end <= es[n].0.start);
+            }
+            lemma_idx_unique(es, n, k);
+        } else {
+            // an older clock: unchanged up to `==`, which is transitive on well-formed values
+            assert(has_pt(m1, client, k));
+            assert(ent_upto(es, n, k));
+            let j = choose|j: int| 0 <= j < n && j < es.len() && inr((#[trigger] es[j]).0, k);
+            lemma_idx_unique(es, j, k);
+            lemma_val_wf(m2[client], k);
+            lemma_val_wf(m1[client], k);
+            assert(es[j].1.wf());
+            val(m2, client, k).law_eq_trans(&val(m1, client, k), &val_at(es, k));
+        }
+    }
+}
+
+/*@extract yrs/src/id_map.rs | impl<A: DeserializeOwned + PartialEq + Eq + Hash + Clone> Decode for IdMap<A> | region decode | stmt=stmt:for | stmtnth=4 | label=idmap_store_section | rules=SUB(from=id_map.inner;;to=inner)
+@header
+    fn idmap_store_section<CA: Merge>(inner: &mut IdMapInner<CA>, client: ClientID, entries: Vec<(Range<u32>, CA)>)
+@sig
+    requires
+        wf_map(old(inner)@),
+        // what strict decoding has established (see the invariants of idmap_decode)
+        ranges_ok(entries@),
+        ents_wf(entries@),
+        !old(inner)@.contains_key(client),
+    ensures
+        wf_map(final(inner)@),
+        same_except(final(inner)@, old(inner)@, client),
+        // EXACTLY the wire list, coalesced: the same clocks ...
+        forall|k: int| #![trigger has_pt(final(inner)@, client, k)] has_pt(final(inner)@, client, k) <==> covers(entries@, k),
+        // ... every clock keeps the attributes it has on the wire (nothing is merged: the ranges do not overlap) ...
+        forall|k: int| covers(entries@, k) ==> #[trigger] val(final(inner)@, client, k).eq_spec(&val_at(entries@, k)),
+        // ... and no entry at all for an empty list
+        final(inner)@.contains_key(client) <==> entries@.len() > 0,
+@start
+    let ghost m0 = inner@;
+    let ghost es = entries@;
+@loop 1 iter=it
+    invariant
+        it.seq() == es,
+        ranges_ok(es),
+        ents_wf(es),
+        0 <= it.index@ <= es.len(),
+        wf_map(inner@),
+        same_except(inner@, m0, client),
+        it.index@ == 0 ==> inner@ == m0,
+        !m0.contains_key(client),
+        forall|k: int| #![trigger has_pt(inner@, client, k)] has_pt(inner@, client, k) <==> ent_upto(es, it.index@ as int, k),
+        forall|k: int| has_pt(inner@, client, k) ==> #[trigger] val(inner@, client, k).eq_spec(&val_at(es, k)),
+@loopstart 1
+    let ghost m1 = inner@;
+    let ghost n = it.index@ as int;
+    proof { assert(es[n].1.wf()); }
+@loopend 1
+    proof { lemma_store_step(m0, m1, inner@, client, es, n); }
+@end
+    proof {
+        let m2 = inner@;
+        assert forall|k: int| #![trigger has_pt(m2, client, k)] has_pt(m2, client, k) <==> covers(es, k) by {
+            assert(has_pt(m2, client, k) <==> ent_upto(es, es.len() as int, k));
+            if ent_upto(es, es.len() as int, k) {
+                let j = choose|j: int| 0 <= j < es.len() && j < es.len() && inr((#[trigger] es[j]).0, k);
+                assert(inr(es[j].0, k));
+            }
+            if covers(es, k) {
+                let j = idx_of(es, k);
+                assert(0 <= j < es.len() && j < es.len() && inr(es[j].0, k));
+            }
+        }
+        if es.len() > 0 {
+            let k0 = es[0].0.start as int;
+            assert(inr(es[0].0, k0));
+            assert(covers(es, k0));
+            assert(has_pt(m2, client, k0));
+        }
+        if m2.contains_key(client) {
+            lemma_nonempty_point(m2[client]);
+            let k1 = choose|k: int| covers(m2[client], k);
+            assert(has_pt(m2, client, k1));
+            assert(covers(es, k1));
+            let j = idx_of(es, k1);
+            assert(0 <= j < es.len());
+        }
+    }
+@*/
